@@ -63,7 +63,7 @@ class C07(Config):
               "From V.C07 Require Import Model Spec Corr Wf.\n"
               "Local Open Scope Z_scope.")
     bin = "c07"
-    release_too = False
+    release_too = True
     n_tags = None
     classes = {1: "C07-split-change-below-dust-threshold"}
     shard_size = 400
@@ -79,13 +79,12 @@ class C07(Config):
         "amount algebra of C09 (imported, proved there)",
     ]
     assumptions = ["usize is 64 bits (the harness target)",
-                   "slice lengths are below 2^32 and transparent script sizes below 2^32 (no usize overflow in the action count)",
+                   "slice lengths, note counts, heights and transparent script sizes are at most 2^31 (no usize overflow in the action count)",
                    "wallet metadata pool totals sum to at most MAX_MONEY (AccountMeta::total_value otherwise panics by its own expect)"]
     partial_clauses = [
-        "fee = ZIP 317 fee of the final shape unless dust is folded into it (AddDustToFee, zero-valued change) or a costed transparent change output came out zero and was omitted: evaluated by prop_case (fee_exact_unless) on every case, not proved; proved: fee >= fee of the final shape, fee >= change-less fee",
-        "no panic for valid amounts: evaluated by prop_case (Panic accepted only when the wallet-metadata pool totals exceed MAX_MONEY, AccountMeta::total_value's own expect); not proved",
-        "per-output dust clause under Reject is proved only outside known-finding class 1 (split minimum below the dust threshold); MultiOutput with SplitPolicy::single_output() is covered by prop_case only",
-        "no bridge theorem run_case => prop_case; the property clauses are proved about the model and evaluated independently on the implementation's outcome",
+        "per-output dust clause under Reject is proved outside known-finding class 1 only (split minimum below the dust threshold with a target above one note); inside the class it is refuted by a witness (C07_no_dust_change_each_refuted) and reported as KNOWN-FINDING",
+        "usize overflow: the model has overflow-checked (debug) semantics; the five fee_required inputs whose action count overflows usize are run in the debug profile only; length arithmetic inside compute_balance is proved not to overflow for lengths/sizes/counts <= 2^31",
+        "the turnstile clause speaks about change only: a caller that requests Orchard payments after NU6.3 is outside it",
     ]
 
     @staticmethod
